@@ -41,7 +41,9 @@ type jGP struct {
 	Elem   []jElem `json:"elem"`
 }
 
-func toJGP(p *gpb.Path) jGP { return jGP{Origin: p.GetOrigin(), Target: p.GetTarget(), Elem: toJPath(p)} }
+func toJGP(p *gpb.Path) jGP {
+	return jGP{Origin: p.GetOrigin(), Target: p.GetTarget(), Elem: toJPath(p)}
+}
 
 // small alphabets: the property's bounded universe
 var relNamesA = []string{"a", "b"}
